@@ -21,6 +21,9 @@ func TestMain(m *testing.M) {
 	if n, err := strconv.Atoi(os.Getenv("VERIF_TIMER_SITES")); err == nil {
 		simrt.TimerSites = n
 	}
+	if n, err := strconv.Atoi(os.Getenv("VERIF_GO_SITES")); err == nil {
+		simrt.GoSites = n
+	}
 	flag.Parse()
 	code := m.Run()
 	writeStats()
